@@ -658,6 +658,24 @@ def gen_forecast():
     given = [ast.unparse(n) for n in branch[0].orelse]
     need(free, "tau free", "units = np.array([m_unit, t_unit])", "bounds = self.bounds.fit_bounds()", "p0 = self.bounds.regularize_initial_guess(p0)")
     need(given, "tau given", "units = np.array([m_unit])", "bounds = self.bounds.M", "p0 = self.bounds.regularize_initial_guess(p0)")
+    # the starting point of the optimiser is a function of THIS call's arguments only (since the tenth round: a warm start from the previous
+    # fit makes the second well's result depend on the first): each branch is exactly its expected assignments plus the nested model function,
+    # and nothing up to the optimiser call reads the fitted state of an earlier call
+    for where, br, want in (("tau free", branch[0].body, ["p0 = [float(cum_production[-1]) * 2, float(time_on_production[-1]) * 5]", "bounds = self.bounds.fit_bounds()",
+                                                          "p0 = self.bounds.regularize_initial_guess(p0)", "units = np.array([m_unit, t_unit])"]),
+                            ("tau given", branch[0].orelse, ["p0 = [float(cum_production[-1]) * 2]", "bounds = self.bounds.M",
+                                                             "p0 = self.bounds.regularize_initial_guess(p0)", "units = np.array([m_unit])"])):
+        got = [ast.unparse(n) for n in br if not isinstance(n, ast.FunctionDef)]
+        if got != want:
+            k = next((i for i, (a, b) in enumerate(zip(got, want)) if a != b), min(len(got), len(want)))
+            raise P.Untranslatable(f"fit ({where}): statement {k + 1} of the branch is `{got[k] if k < len(got) else '<missing>'}`, expected `{want[k] if k < len(want) else '<nothing more>'}`")
+    k_opt = [i for i, t_ in enumerate(txt) if t_.startswith("fit, covariance = curve_fit(")][0]
+    for n in body[:k_opt + 1]:
+        for sub in ast.walk(n):
+            if isinstance(sub, ast.Attribute) and isinstance(sub.value, ast.Name) and sub.value.id == "self" and sub.attr not in ("bounds", "rf_curve"):
+                raise P.Untranslatable(f"fit: `self.{sub.attr}` is read or written before the optimiser call (only self.bounds and self.rf_curve may enter the fit)")
+            if isinstance(sub, ast.Call) and isinstance(sub.func, ast.Name) and sub.func.id in ("hasattr", "getattr", "vars", "setattr"):
+                raise P.Untranslatable(f"fit: `{ast.unparse(sub)}` before the optimiser call (the fit may depend on self.bounds and self.rf_curve only)")
 
     def nested_return(stmts, where, args, ret):
         fd = [n for n in stmts if isinstance(n, ast.FunctionDef) and n.name == "forecast"]
@@ -673,6 +691,9 @@ def gen_forecast():
     m.out.append("""(* ForecasterOnePhase.fit: the units the optimiser works in *)
 (* abs(float(x)) or 1.0 *)
 Definition fit_unit (last : R) : R := if Req_EM_T (Rabs last) 0 then 1 else Rabs last.
+(* p0 = [float(cum_production[-1]) * 2, float(time_on_production[-1]) * 5]   /   [float(cum_production[-1]) * 2]  (before regularisation) *)
+Definition fit_first_guess_free (last_cum last_time : R) : R * R := (last_cum * 2, last_time * 5).
+Definition fit_first_guess_given (last_cum : R) : R := last_cum * 2.
 (* cum_scaled = np.asarray(cum_production, dtype=np.float64) / m_unit *)
 Definition fit_cum_scaled (cum : list R) (m_unit : R) : list R := map (fun y => y / m_unit) cum.
 (* tau free: forecast(t, M, tau) = _forecast_cum_onephase(rf, t, M, tau * t_unit), per time point ; units = [m_unit, t_unit] *)
